@@ -76,6 +76,21 @@ def _resolvable_names(col, rule="C11.R2"):
                 ok = True
     col.add(rule, "CallRef.__repr__#function-as-ref-path", ok, sx.loc(sx.fn),
             "a called function held in a container prints as its reference path", "")
+    # ... exactly when it is a reference (a plain function has no path: it prints by its __name__)
+    isref = S.fcall("isinstance", S.sattr("_func"), ("glob", "BaseRef"))
+    for ev in sx.of_kind("call"):
+        if ev.term == S.fcall("repr", S.sattr("_func")):
+            cs = sx.conds(ev.nid)
+            if isref in cs or ("uop", "not", isref) in cs:
+                col.add(rule, "CallRef.__repr__#ref-path-when-function-is-a-ref", isref in cs, sx.loc(ev),
+                        "repr(self._func) is used when the function is a reference, its __name__ otherwise", str([S.show(c) for c in cs]))
+    # BuiltinRef looks the operator itself up in the symbol table (falling back to its __name__)
+    bx = sctx(repo, "BuiltinRef", "__repr__")
+    for ev, mm in bx.calls_some(("call", ("attr", ("glob", "OPERATOR_SYMBOLS"), "get"), S.V("a"), S.ANY)):
+        a = mm["a"]
+        okb = len(a) == 2 and a[0] == S.sattr("_op") and a[1] == ("attr", S.sattr("_op"), "__name__")
+        col.add(rule, "BuiltinRef.__repr__#symbol-looked-up-by-operator", okb, bx.loc(ev),
+                "the symbol table is keyed by the operator object; the fallback is the operator's __name__", S.show(ev.term)[:80])
 
 
 def _precedence(col, rule="C11.R3"):
